@@ -142,6 +142,9 @@ def parseDml : List String → Option Dml
   | ["del", t, id] => match id.toInt? with
     | some a => some (.del t a) | none => none
   | ["alt", t] => some (.alt t)
+  -- a multi-row UPDATE built to fail on its last row (`UPDATE t SET v = v + 7000 / (id - last)`): whatever the engine
+  -- answers, it must leave the table as it was — an UPDATE of a row that does not exist
+  | ["updf", t, _] => some (.upd t (-999999) 0)
   | _ => none
 
 def allSome {α : Type} (xs : List (Option α)) : Option (List α) :=
